@@ -249,8 +249,8 @@ func TestVerif_C25(t *testing.T) {
 	r := verifkit.Start(t, "C25", "exploration")
 	defer r.Finish()
 	nCases := r.Pick(2500, 40000)
-	nFocus := r.Pick(3000, 30000)
-	r.SetRule(fmt.Sprintf("%d seeded PUTs, each on its own service: policy = 1..3 REP rules (1..4 copies) or 1..3 EC rules (d=1..4,p=1..3, rules may repeat) over node lists drawn with overlap from a universe of 5..14 nodes, optionally an initial policy (per-rule limits, MaxReplicas, PreferLocal); local node inside (any list position) or outside the container; every node stores, refuses, or refuses its first 1..2 requests, answers are given concurrently with seeded yields; objects: node-sliced regular (one object or split by size), client-signed regular, tombstone, lock; distinct = (policy shape, initial shape, local position class, failure pattern class, object kind, result class)", nCases))
+	nFocus := r.Pick(8000, 40000)
+	r.SetRule(fmt.Sprintf("%d seeded PUTs, each on its own service: policy = 1..3 REP rules (1..4 copies) or 1..3 EC rules (d=1..4,p=1..3, rules may repeat) over node lists drawn with overlap from a universe of 5..14 nodes, optionally an initial policy (per-rule limits, MaxReplicas, PreferLocal); local node inside (any list position) or outside the container; every node stores, refuses, or refuses its first 1..2 requests, answers are given concurrently with seeded yields; objects: node-sliced regular (one object or split by size), client-signed regular, tombstone, lock; plus %d PUTs of the rule-correlated family: 2..3 rules, initial policy in 4 of 5 (MaxReplicas, PreferLocal frequent), the local node a member of exactly a seeded subset of the lists, failures correlated with the rules (all nodes of a proper subset of the lists down, optionally sparing nodes shared with a healthy list; number of live container nodes = demanded total -2..+1; local and few others alive) or independent; distinct = (policy shape, initial shape, local position class (outside / in first list / in later lists only), failure pattern class, object kind, result class)", nCases, nFocus))
 	r.Assume("acknowledgement = the fake node (local storage, replication transport or remote PUT stream) returned success for the object")
 	r.Assume("under MaxReplicas the total is counted in the way most favourable to the code: max(distinct acknowledging nodes + completed EC rules, sum over rules of min(limit, acknowledging nodes of the rule's list) + completed EC rules)")
 	r.Assume("REP+EC policies are not generated (rejected at container creation); system objects in EC containers are not judged (statement is silent)")
@@ -448,7 +448,11 @@ func vf25Case(r *verifkit.Run, idx int, focus bool) {
 		}
 		policy.SetReplicas(rds)
 	}
-	if rng.IntN(2) == 0 {
+	withInitial := rng.IntN(2) == 0
+	if focus {
+		withInitial = rng.IntN(5) != 0
+	}
+	if withInitial {
 		// an initial policy the API accepts: limits <= main counts (EC: 0/1), not all zero,
 		// MaxReplicas <= sum of limits, PreferLocal only with MaxReplicas, differs from main
 		var ip netmap.InitialPlacementPolicy
@@ -487,7 +491,10 @@ func vf25Case(r *verifkit.Run, idx int, focus bool) {
 		}
 		if sc.Limits == nil || rng.IntN(2) == 0 {
 			sc.MaxReplicas = 1 + uint32(rng.IntN(int(sum)))
-			if rng.IntN(2) == 0 {
+			if focus && sum > 1 && rng.IntN(2) == 0 {
+				sc.MaxReplicas = 2 + uint32(rng.IntN(int(sum)-1)) // a total that one copy cannot satisfy
+			}
+			if rng.IntN(2) == 0 || focus && rng.IntN(2) == 0 {
 				sc.PreferLocal = true
 			}
 		}
@@ -505,6 +512,108 @@ func vf25Case(r *verifkit.Run, idx int, focus bool) {
 	}
 	cnr.SetPlacementPolicy(policy)
 	cnrID := verifkit.RandCID(rng)
+
+	if focus {
+		// failures correlated with the rules.  demanded = number of acknowledgements the
+		// statement asks for under the policy in force (REP: copies, EC: parts).
+		member := make([]int, uniN) // bit i set: node is in list #i
+		var cnrNodes []int
+		for i := range sc.Lists {
+			for _, j := range sc.Lists[i] {
+				if member[j] == 0 {
+					cnrNodes = append(cnrNodes, j)
+				}
+				member[j] |= 1 << i
+			}
+		}
+		sort.Ints(cnrNodes)
+		demanded := 0
+		for i := range need {
+			switch {
+			case sc.Initial && sc.Limits != nil && ecPolicy:
+				demanded += int(sc.Limits[i]) * need[i]
+			case sc.Initial && sc.Limits != nil:
+				demanded += int(sc.Limits[i])
+			default:
+				demanded += need[i]
+			}
+		}
+		if sc.MaxReplicas > 0 && !ecPolicy {
+			demanded = int(sc.MaxReplicas)
+		}
+		refuse := func(j int) { w.modes[string(universe[j].PublicKey())] = vf25NodeMode{refuse: true} }
+		switch k := rng.IntN(10); k {
+		case 0, 1, 2, 3: // all nodes of a non-empty proper subset of the lists are down
+			failClass = "whole-lists-down"
+			down := 1 + rng.IntN(1<<nRules-2)
+			spareShared := rng.IntN(3) == 0 // ... except those that also serve a healthy list
+			if spareShared {
+				failClass = "whole-lists-down-except-shared-nodes"
+			}
+			for _, j := range cnrNodes {
+				if member[j]&down != 0 && !(spareShared && member[j]&^down != 0) {
+					refuse(j)
+				}
+			}
+		case 4, 5: // the number of live container nodes is around the demanded total
+			failClass = "live-nodes-around-demanded-total"
+			alive := max(0, min(len(cnrNodes), demanded-2+rng.IntN(4)))
+			perm := rng.Perm(len(cnrNodes))
+			for _, x := range perm[alive:] {
+				refuse(cnrNodes[x])
+			}
+		case 6: // only the local node (and few others) is alive
+			failClass = "local-and-few-alive"
+			for _, j := range cnrNodes {
+				if j != sc.Local && rng.IntN(4) != 0 {
+					refuse(j)
+				}
+			}
+		case 7:
+			failClass = "few-refuse"
+			for i := 0; i < 1+rng.IntN(2); i++ {
+				refuse(rng.IntN(uniN))
+			}
+		case 8:
+			failClass = "transient"
+			for i := range universe {
+				if rng.IntN(3) == 0 {
+					w.modes[string(universe[i].PublicKey())] = vf25NodeMode{failFirst: 1 + rng.IntN(2)}
+				}
+			}
+		case 9:
+			failClass = "mixed"
+			for i := range universe {
+				switch rng.IntN(4) {
+				case 0:
+					refuse(i)
+				case 1:
+					w.modes[string(universe[i].PublicKey())] = vf25NodeMode{failFirst: 1}
+				}
+			}
+		}
+	}
+	sc.FailClass = failClass
+	listsDown := 0 // lists whose nodes all refuse everything
+	for i := range sc.Lists {
+		allDown := true
+		for _, j := range sc.Lists[i] {
+			allDown = allDown && w.modes[string(universe[j].PublicKey())].refuse
+		}
+		if allDown {
+			listsDown++
+		}
+	}
+	for i := range universe {
+		m := w.modes[string(universe[i].PublicKey())]
+		s := "ok"
+		if m.refuse {
+			s = "refuse"
+		} else if m.failFirst > 0 {
+			s = "fail-first-" + strconv.Itoa(m.failFirst)
+		}
+		sc.Modes = append(sc.Modes, s)
+	}
 
 	maxObj := 2048
 	net := &vf25Net{localPub: localPub, cn: vf25CnrNodes{lists: lists, reps: reps, rules: rules}, cnr: cnr, maxSize: uint64(maxObj)}
@@ -621,7 +730,27 @@ func vf25Case(r *verifkit.Run, idx int, focus bool) {
 
 	localClass := "outside"
 	if localIn {
-		localClass = "inside"
+		localClass = "in-later-lists-only"
+		if sc.LocalIn[0] == 0 {
+			localClass = "in-first-list"
+		}
+	}
+	// policy class of the case, for the evidence (what was observed with which outcome)
+	polFam := "rep"
+	if ecPolicy {
+		polFam = "ec"
+	}
+	var polClasses []string
+	if sc.MaxReplicas > 0 {
+		polClasses = append(polClasses, polFam+"_initial_max")
+		if sc.PreferLocal && localIn {
+			polClasses = append(polClasses, polFam+"_initial_max_prefer_local_"+strings.ReplaceAll(localClass, "-", "_"))
+		}
+	}
+	if putErr != nil {
+		for _, c := range polClasses {
+			r.Count("not_success_"+c, 1)
+		}
 	}
 	shape := fmt.Sprintf("rep%v|ec%v|lim%v|max%d|pl%v|%s|%s|%s|%s", sc.Reps, sc.EC, sc.Limits, sc.MaxReplicas, sc.PreferLocal, localClass, failClass, sc.Kind, resClass)
 	r.Distinct(shape)
@@ -683,9 +812,6 @@ func vf25Case(r *verifkit.Run, idx int, focus bool) {
 	vioKey := func(symptom string) string {
 		if family == "ec+repeated-ec-rule" {
 			return family + "|" + against + "|" + symptom
-		}
-		if upload == "split-upload" {
-			return family + "|split-upload|member-under-replicated"
 		}
 		if sc.PreferLocal {
 			return family + "|" + against + "+prefer-local|" + upload + "|" + symptom
@@ -753,6 +879,12 @@ func vf25Case(r *verifkit.Run, idx int, focus bool) {
 		r.Count("success_judged_rep", 1)
 		if sc.Initial {
 			r.Count("success_judged_initial", 1)
+		}
+		for _, c := range polClasses {
+			r.Count("success_judged_"+c, 1)
+		}
+		if listsDown > 0 {
+			r.Count("success_judged_with_whole_lists_down", 1)
 		}
 		r.Count("objects_judged", len(ids))
 		if idx%211 == 0 {
@@ -861,6 +993,12 @@ func vf25Case(r *verifkit.Run, idx int, focus bool) {
 	r.Count("success_judged_ec", 1)
 	if sc.Initial {
 		r.Count("success_judged_initial", 1)
+	}
+	for _, c := range polClasses {
+		r.Count("success_judged_"+c, 1)
+	}
+	if listsDown > 0 {
+		r.Count("success_judged_with_whole_lists_down", 1)
 	}
 	r.Count("objects_judged", len(pids))
 	if idx%211 == 0 {
